@@ -229,6 +229,14 @@ def r2_value_types(P, rep, ctx, tier):
         elif isinstance(si, ast.Dict):
             ty = next((v for k, v in zip(si.keys, si.values) if isinstance(k, ast.Constant) and k.value == "type"), None)
         rep.check(isinstance(ty, ast.Constant) and ty.value == "string", "C12.R2", pc.qual, f"schema_info of {c.name} declares type 'string'", loc, construct=f"{c.name}.Parser.schema_info", message=f"{c.name}.Parser.schema_info does not declare JSON type 'string'")
+    # pint units / quantities: the encoder is the full `str()` form, the one spelling the pint parser maps back to the same
+    # unit for every unit (abbreviated forms such as "{:~}" print dimensionless as "" and share symbols between units)
+    for cn in ("PintUnit", "PintQuantity"):
+        c_ = P.cls(f"schema.types.{cn}")
+        encs = [norm(x.args[0]) for x in c_.node.decorator_list if isinstance(x, ast.Call) and norm(x.func) == "json_encoder" and x.args]
+        encs += [norm(x.args[1]) for x in ast.walk(c_.module.tree) if isinstance(x, ast.Call) and norm(x.func) == "add_json_encoder" and len(x.args) >= 2 and norm(x.args[0]) == cn]
+        rep.check(encs == ["str"], "C12.R2", c_.qual, f"{cn} is encoded with str()", f"{c_.module.relpath}:{c_.node.lineno}", construct=f"{cn} encoder {encs}",
+                  message=f"{cn} is encoded with {encs} instead of `str`: the written form is not the one the pint parser reads back as the same value for every unit (e.g. abbreviated symbols: dimensionless becomes the empty string, femtometer / petayear / milliinch collide with other units)")
     # Duration: encoder/parser are the isodate pair
     d = P.cls("schema.types.Duration")
     enc = [norm(x.args[0]) for x in d.node.decorator_list if isinstance(x, ast.Call) and norm(x.func) == "json_encoder"]
